@@ -143,11 +143,11 @@ func (b *c14Backend) mutate(m string) bool {
 		b.touch(d1.Owner)
 	case "d1-remove-readd":
 		if d1.Owner == "" {
-			if b.Profs["p1"].Deleted || !linkedFree(d1.Linked) {
+			if b.Profs["p1"].Deleted || (d1.Linked != "" && !linkedFree(d1.Linked)) {
 				return false
 			}
 			for _, d := range b.Devs {
-				if d != d1 && d.Owner != "" && d.Ded == d1.Ded {
+				if d != d1 && d.Owner != "" && d1.Ded != "" && d.Ded == d1.Ded {
 					return false
 				}
 			}
@@ -164,8 +164,54 @@ func (b *c14Backend) mutate(m string) bool {
 		d1.Ded, d2.Ded = d2.Ded, d1.Ded
 		b.touch(d1.Owner)
 		b.touch(d2.Owner)
+	case "d1-d2-swap-linked":
+		// Both devices arrive in one response and exchange their linked IPs
+		// (one of them may have none: then it is a hand-over).
+		if d1.Owner == "" || d2.Owner == "" || d1.Linked == d2.Linked {
+			return false
+		}
+		d1.Linked, d2.Linked = d2.Linked, d1.Linked
+		b.touch(d1.Owner)
+		b.touch(d2.Owner)
+	case "d1-d2-linked-handover":
+		// The device that has a linked IP gives it up and the other one takes
+		// it, losing its own: d2 -> d1 (the taker comes first in the response)
+		// when d2 has one, else d1 -> d2.
+		if d1.Owner == "" || d2.Owner == "" || (d1.Linked == "" && d2.Linked == "") {
+			return false
+		}
+		if d2.Linked != "" {
+			d1.Linked, d2.Linked = d2.Linked, ""
+		} else {
+			d1.Linked, d2.Linked = "", d1.Linked
+		}
+		b.touch(d1.Owner)
+		b.touch(d2.Owner)
+	case "d1-d2-dedicated-handover":
+		if d1.Owner == "" || d2.Owner == "" || (d1.Ded == "" && d2.Ded == "") {
+			return false
+		}
+		if d2.Ded != "" {
+			d1.Ded, d2.Ded = d2.Ded, ""
+		} else {
+			d1.Ded, d2.Ded = "", d1.Ded
+		}
+		b.touch(d1.Owner)
+		b.touch(d2.Owner)
+	case "d1-d3-human-handover":
+		// d3's human id goes to d1 (earlier in the response) or back.
+		if d1.Owner == "" || d3.Owner == "" || (d1.Human == "" && d3.Human == "") {
+			return false
+		}
+		if d3.Human != "" {
+			d1.Human, d3.Human = d3.Human, ""
+		} else {
+			d1.Human, d3.Human = "", d1.Human
+		}
+		b.touch(d1.Owner)
+		b.touch(d3.Owner)
 	case "d3-human-toggle":
-		if d3.Owner == "" {
+		if d3.Owner == "" || d3.Human == "" {
 			return false
 		}
 		if d3.Human == "h1" {
@@ -207,7 +253,8 @@ func (b *c14Backend) mutate(m string) bool {
 	return true
 }
 
-var c14Mutations = []string{"none", "d1-linked-toggle", "d2-linked-take-x", "d1-move", "d1-remove-readd", "d1-d2-swap-dedicated", "d3-human-toggle", "d3-move", "p2-delete-toggle", "p1-auto-devices-toggle"}
+var c14Mutations = []string{"none", "d1-linked-toggle", "d2-linked-take-x", "d1-move", "d1-remove-readd", "d1-d2-swap-dedicated", "d3-human-toggle", "d3-move", "p2-delete-toggle", "p1-auto-devices-toggle",
+	"d1-d2-swap-linked", "d1-d2-linked-handover", "d1-d2-dedicated-handover", "d1-d3-human-handover"}
 
 func (b *c14Backend) device(id string) *agd.Device {
 	d := b.Devs[id]
